@@ -256,6 +256,19 @@ impl AsRange for DicomDate {
     }
 }
 
+/// Build a [`NaiveTime`] from DICOM time components.
+///
+/// A leap second (second 60) is represented the way chrono does it,
+/// as second 59 plus one extra second in the fraction,
+/// mirroring the conversion from [`NaiveTime`] into [`DicomTime`].
+fn naive_time_from_hms_micro(h: u32, m: u32, s: u32, micro: u32) -> Option<NaiveTime> {
+    if s == 60 {
+        NaiveTime::from_hms_micro_opt(h, m, 59, micro + 1_000_000)
+    } else {
+        NaiveTime::from_hms_micro_opt(h, m, s, micro)
+    }
+}
+
 impl AsRange for DicomTime {
     type PreciseValue = NaiveTime;
     type Range = TimeRange;
@@ -275,7 +288,7 @@ impl AsRange for DicomTime {
             },
         );
 
-        NaiveTime::from_hms_micro_opt((*h).into(), (*m).into(), (*s).into(), f).context(
+        naive_time_from_hms_micro((*h).into(), (*m).into(), (*s).into(), f).context(
             InvalidTimeMicroSnafu {
                 h: *h as u32,
                 m: *m as u32,
@@ -296,7 +309,7 @@ impl AsRange for DicomTime {
                 }
             },
         );
-        NaiveTime::from_hms_micro_opt((*h).into(), (*m).into(), (*s).into(), f).context(
+        naive_time_from_hms_micro((*h).into(), (*m).into(), (*s).into(), f).context(
             InvalidTimeMicroSnafu {
                 h: *h as u32,
                 m: *m as u32,
